@@ -30,21 +30,23 @@ UNITS = [
     Verus('c11_skip_targets', build, min_verified=6,
           contract='skip_target_boundaries(n): never Err (no Bug reachable, no overflow); strictly ascending; every target in [1, n); empty iff n < 2; '
                    'first = n/2; each next target halves the remaining gap; the last gap is <= MIN_SKIP_GAP; terminates. All n in u64.'),
-    Verus('c11_is_ancestor', build_ia, min_verified=21,
-          contract='Storage::is_ancestor (the default search, extracted verbatim): for every well-formed stored graph of any size, terminates and returns true exactly when search is a proper ancestor of start; '
-                   'skip-list jumps never change the answer; no error / Bug exit; the debug_assert is proved'),
+    Verus('c11_is_ancestor', build_ia, min_verified=37,
+          contract='Storage::is_ancestor, search_queued, Storage::get_location, Storage::get_location_from, LocatedAddress::location (default methods, extracted verbatim): for every well-formed stored graph of any size, '
+                   'is_ancestor terminates and returns true exactly when search is a proper ancestor of start; search_queued returns Some(l) exactly when the storage holds the addressed command and it is an ancestor-or-self of a seed, '
+                   'and l is that command\'s location; get_location finds the command exactly when it is in the committed graph (reachable from a committed head); get_location_from exactly when it is start or an ancestor of start; '
+                   'skip-list jumps never change the answer; no error / Bug exit; the debug_asserts are proved'),
 ]
 TRUSTED = ['MaxCut is a u64 newtype (shim)',
-           'graph well-formedness axioms (assumed contract of Storage / Segment, 8 admitted proof fns): max cut strictly grows along ancestry, transitivity, in-segment order, '
+           'graph well-formedness axioms (assumed contract of Storage / Segment / get_heads, 10 admitted proof fns): max cut strictly grows along ancestry, transitivity, in-segment order, '
            'cross-segment ancestry passes through the segment priors, skip entries are spine nodes (DESIGN §4 C11) — the last one is what LinearStorage::build_skip_list must establish and is NOT verified',
            'TraversalQueue::{push, pop} contracts as proved in unit c21_traversal_queue, restated over the one-entry-per-segment view (restatement argued, not mechanically linked)']
-ASSUMPTIONS = ['search_queued / get_location(_from) (same loop shape as is_ancestor, by address) is not under contract',
+ASSUMPTIONS = ['Segment::get_by_address is assumed to find the addressed command exactly when this segment holds it (external_body contract); TraversalQueue::push is assumed not to overflow its capacity',
                'that the real LinearStorage satisfies the graph axioms — in particular the spine property of the skip lists it builds — is argued in DESIGN.md, not machine-checked']
 EXPLANATION = 'Ancestry search proved correct and terminating over an abstract well-formed graph; skip-list target computation proved for all n; both on extracted text.'
 MANIFEST = {
     'text': 'Proof relative to stated graph axioms: the extracted Storage::is_ancestor terminates and answers exactly "proper ancestor" on every well-formed graph, with skip jumps '
-            'never changing the answer (Verus, unbounded, 21 obligations); the skip-list boundary computation is verified for every n. That LinearStorage builds skip lists with the '
-            'spine property, and lookup by address (search_queued), are not machine-checked.',
+            'never changing the answer, and lookup by address (search_queued, get_location, get_location_from) finds a command exactly when it is reachable from the committed heads / the start and returns its location '
+            '(Verus, unbounded, 37 obligations); the skip-list boundary computation is verified for every n. That LinearStorage builds skip lists with the spine property is not machine-checked.',
     'note': 'PROVED-LOCAL: modular proof over assumed Storage/Segment graph axioms and the TraversalQueue contracts of C21.',
-    'technique': 'Verus on the extracted Storage::is_ancestor and skip_target_boundaries',
+    'technique': 'Verus on the extracted Storage::is_ancestor, search_queued, get_location, get_location_from and skip_target_boundaries',
 }
